@@ -332,7 +332,7 @@ def _r5(ctx):
             return None
         seeds = compare_seeds(fn, pred)
         pos, neg, _ = test_edges(fn, seeds) if seeds else (set(), set(), [])
-        idx = fn.calls(lambda n: re.search(r'Index<.*>>::index$|::index$|::get_unchecked$', n) is not None)
+        idx = fn.calls(lambda n: re.search(r'Index<.*>::index$|::get_unchecked$', n) is not None)
         if pos and idx and all(guarded(fn, b, pos) for b, _, _ in idx):
             r5.ok('read_bytes-guard', loc=fn.loc(idx[0][0]))
         else:
